@@ -22,6 +22,8 @@ use linfa::ParamGuard;
 use serde_crate::{Deserialize, Serialize};
 
 mod hyperparams;
+#[cfg(linfa_verif)]
+pub mod verif_hooks_c17;
 
 pub(crate) type Tokenizerfp = fn(&str) -> Vec<&str>;
 pub enum Tokenizer {
